@@ -538,13 +538,61 @@ def wiring(ctx):
                 src += re.sub(r"//[^\n]*", "", f.read())
     sweeps = re.search(r"NewTicker\([^)]*\)(?:(?!\n}\n).)*?\.RemoveOldRegistrations\(\)", src, flags=re.S)
     ctx.cov["histogram"]["wiring/sweeper"] = 1 if sweeps else 0
-    ctx.cov["histogram"]["wiring/markactive"] = 1 if re.search(r"\.MarkActive\(", src) else 0
     if not sweeps:
         ctx.broken("wiring", "no ticker loop in cmd/application calls RegistrationManager.RemoveOldRegistrations(): "
                    "expired registrations would never be swept by the running station")
-    if not re.search(r"\.MarkActive\(", src):
-        ctx.broken("wiring", "cmd/application never calls RegistrationManager.MarkActive: a connection would not mark "
-                   "its registration used")
+    mark_sites(ctx)
+
+
+def mark_sites(ctx):
+    """The table of tunnel sites, regenerated from the source on every run (harness/inpkg/c08/marksites, go/ast): every call
+    of Proxy (a tunnel is relayed for a registration) with how its registration was found and whether MarkActive is called
+    on that registration between the finding and the relay.  Rule: a registration that a WRAPPING transport found for a
+    client connection (WrapConnection) is marked used before its tunnel is relayed - not after, not deferred.  A CONNECTING
+    transport's registration (Connect: the station dials out while it ingests the registration, nothing looks it up again) is
+    listed; conjure does not mark it, and the property's connect is the handler's match (notes/C08.md).  The verdict with a
+    failing input is the connection lane's; this table makes a removed or moved call visible by file and line."""
+    env = dict(os.environ)
+    env.update({"GOPROXY": "off", "GOSUMDB": "off", "GOTOOLCHAIN": "local", "GO111MODULE": "off", "GOFLAGS": ""})
+    rc, out = lib.sh(["go", "run", os.path.join(lib.INPKG, "c08", "marksites", "main.go"), REPO, "cmd/application", "pkg/station/lib"],
+                     cwd=lib.BUILD, env=env, timeout=300)
+    try:
+        fns = json.loads(out[out.index("["):]) if rc == 0 else None
+    except Exception:
+        fns = None
+    if fns is None:
+        ctx.cov["mark_sites"] = "walker failed: %s" % out[-300:]
+        ctx.broken("mark-sites", "the call-site walker (harness/inpkg/c08/marksites) failed: %s" % out[-400:])
+        return
+    table, callers = [], []
+    for f in fns:
+        calls = f["calls"]
+        for c in calls:
+            if c["name"] == "MarkActive":
+                callers.append("%s:%d %s" % (f["file"], c["line"], f["func"]))
+        for i, c in enumerate(calls):
+            if c["name"] != "Proxy":
+                continue
+            found = [x for x in calls[:i] if x["name"] in ("WrapConnection", "Connect")]
+            kind = "unknown" if not found else ("wrapping" if found[-1]["name"] == "WrapConnection" else "connecting")
+            since = found[-1]["pos"] if found else 0
+            marks = [x for x in calls if x["name"] == "MarkActive" and x["arg"] == c["arg"]]
+            before = [x for x in marks if since < x["pos"] < c["pos"] and not x["deferred"] and not x["in_go"]]
+            row = {"file": f["file"], "func": f["func"], "proxy_line": c["line"], "registration": c["arg"], "found_by": kind,
+                   "marked_before_relay": bool(before), "mark_lines": [x["line"] for x in marks]}
+            table.append(row)
+            ctx.count(("mark-site", f["file"], f["func"], kind), nontrivial=True, kind="marksite/" + kind)
+            if kind == "wrapping" and not before:
+                where = ("MarkActive(%s) is called at line %s, i.e. not between the match and the relay" % (c["arg"], marks[0]["line"])
+                         if marks else "MarkActive(%s) is not called in that function" % c["arg"])
+                ctx.broken("mark-sites", "%s %s: the registration a wrapping transport found is relayed (Proxy, line %d) without having "
+                           "been marked used first: %s; it stays 'unused' for as long as its tunnel is open" % (
+                               f["file"], f["func"], c["line"], where), {"site": row})
+    ctx.cov["mark_sites"] = {"tunnel_sites": table, "mark_active_callers": callers}
+    ctx.cov["histogram"]["wiring/markactive"] = len(callers)
+    if not callers:
+        ctx.broken("wiring", "no non-test code of cmd/application or pkg/station/lib calls RegistrationManager.MarkActive: a connection "
+                   "would not mark its registration used")
 
 
 # ----------------------------------------------------------------------------- shrinking
@@ -981,21 +1029,35 @@ def run(ctx):
                        "with two transports, two phantoms, two secrets with a common id prefix) plus random histories of up to "
                        "200 operations over up to 8 secrets x 5 transports x 4 phantoms, with time steps aimed at the 10 min / 6 h "
                        "limits +- 1 s")
+    import time as _time
+    t0 = [_time.time()]
+    ctx.cov["phase_s"] = {}
+
+    def tick(name):
+        now = _time.time()
+        ctx.cov["phase_s"][name] = round(ctx.cov["phase_s"].get(name, 0) + now - t0[0], 1)
+        t0[0] = now
     ctx.coq_props()
-    rc, out = ctx.coq_make(["C08/Examples.vo", "C08/Legacy.vo"])
+    tick("coq_props")
+    rc, out = ctx.coq_make(["C08/Examples.vo", "C08/Legacy.vo", "C08/ExamplesConn.vo", "C08/LateMark.vo"])
     if rc != 0:
-        ctx.broken("examples", "non-vacuity examples / legacy witness no longer check: " + out[-600:])
+        ctx.broken("examples", "non-vacuity examples / legacy witness / late-mark witness no longer check: " + out[-600:])
     only = os.environ.get("VERIF_C08_ONLY")      # development aid: run a single lane (never set by the registered commands)
     if only == "conn":
         run_conn(ctx)
         return
+    tick("examples")
     wiring(ctx)
+    tick("wiring+mark-sites")
     run_sweeper(ctx)
+    tick("sweeper-loop")
     run_conn(ctx)
+    tick("connection-lane")
     cases, n_fixed, n_exh = gen_cases(ctx)
     # primary run: the runtime's fake clock, moved by the driver - every age is exact to the nanosecond
     rc, out, res = go_run(ctx, ".", GO_PKG, GO_FILES, "^TestVerifC08Registry$", cases, "fake", 900)
     fake_ok = res is not None and len(res) == len(cases)
+    tick("registry-lane go (fake clock)")
     if fake_ok:
         ctx.cov["clock"] = "faketime (runtime clock moved by the driver; ages exact)"
         # cross-check with the real clock and shifted timestamps (whole seconds, 0.5 s slack): same observations
@@ -1025,6 +1087,7 @@ def run(ctx):
         if res is None or len(res) != len(cases):
             ctx.broken("driver", "Go driver did not produce results (rc=%s): %s" % (rc, out[-1200:]))
             return
+    tick("registry-lane go (shifted cross-check)")
     terms, kept_cases = [], []
     for idx, (case, r) in enumerate(zip(cases, res)):
         nsweep = sum(1 for o in case["ops"] if o["op"] == "sweep")
@@ -1060,7 +1123,9 @@ def run(ctx):
     if ctx.replay is None:
         ctx.require_kinds(["corpus/expiring", "exhaustive/expiring", "exhaustive/sweep", "random/expiring",
                            "op/track", "op/tracknx", "op/validate", "op/validate_stale", "op/active", "op/advance", "op/sweep", "op/lookup", "op/count"])
+    tick("registry-lane oracle")
     mm = ctx.coq_mismatches("hist", HEADER, terms, "chk", shard=max(60, (len(terms) + 15) // 16), need_vo=["C08/Run.vo"])
+    tick("registry-lane coq")
     if mm:
         ctx.cov["mismatches"] += len(mm)
         case, r = kept_cases[mm[0]]
